@@ -93,6 +93,7 @@ def check(F, rep, tier):
     who_writes_schema(F, rep)
     validator_complete(F, rep)
     validator_vs_resolver(F, rep)
+    whole_document(F, rep)
     return core.finish(rep, explanation=EXPL, assumptions=ASSUME, trusted=TRUST)
 
 def handwritten_pair(F, rep, ty, ser, de):
@@ -272,6 +273,18 @@ def validator_complete(F, rep):
             hit = any(all(str((m, tr)) in g for m, tr in pairs) for g in flat)
             if hit: rep.ok(rule, "%s rejects %s" % (fn_name, pairs), nontrivial_key=fn_name + str(pairs))
             else: rep.bad(rule, "placement-rule-missing:%s:%s" % (fn_name, pairs[0][0]), "%s no longer rejects components with %s (found rejection guards %s)" % (fn_name, pairs, sorted(flat)), v.where())
+    # every section validator checks the components (ts() patterns) of its OWN section
+    for fn_name, getter in (("validate_core", "core"), ("validate_extra_core", "extra_core"), ("validate_build", "build")):
+        f = F.fn(V + fn_name)
+        if f is None: continue
+        ok = False
+        for bi, t in f.calls():
+            if (mir.callee(t) or "") == V + "validate_components":
+                srcs = [(mir.callee(o.fn.blocks[o.data]["t"]) or "").rsplit("::", 1)[-1] for o in mir.trace_op(f, t[2][0], transparent=mir.TRANSPARENT) if o.kind == "call"]
+                propagated = any(any(a[0] in ("cp", "mv") and a[1][0] == t[3][0] for a in t2[2]) and "Try>::branch" in (mir.callee(t2) or "") for b2, t2 in f.calls())
+                if srcs == [getter] and propagated: ok = True
+        if ok: rep.ok(rule, "%s validates the components of %s()" % (fn_name, getter), nontrivial_key=fn_name + "comp")
+        else: rep.bad(rule, "components-not-validated:" + fn_name, "%s does not run validate_components(self.%s())?: an unknown ts() pattern in that section is accepted when the schema arrives by deserialisation" % (fn_name, getter), f.where())
     # order of primaries
     po = F.fn(V + "validate_primary_order")
     if rep.anchor(rule, "validate_primary_order", po):
@@ -285,6 +298,30 @@ def validator_complete(F, rep):
         else: rep.bad(rule, "primary-order", "validate_primary_order does not reject non-increasing primary components", po.where())
         called = any((mir.callee(t) or "") == po.path for g in (F.fn(V + "validate_core"),) if g for bi, t in g.calls())
         if not called: rep.bad(rule, "primary-order-not-called", "validate_core does not call validate_primary_order", po.where())
+
+def whole_document(F, rep):
+    """RON input is parsed as a WHOLE document: through ron::from_str / ron::de::from_str / Options::from_str (which check for
+    trailing characters), or - when a ron Deserializer is driven by hand - with a dominating end() before Ok."""
+    rule = "R12.6"
+    n = 0
+    for p, f in F.fns.items():
+        if f.d.get("derived") or f.d.get("exp") or "_serde::" in p: continue
+        for bi, t in f.calls():
+            full = t[1].get("full") or ""; c = mir.callee(t) or ""
+            if c.startswith("ron::") and c.rsplit("::", 1)[-1] in ("from_str", "from_reader", "from_bytes") and "Deserializer" not in c:
+                n += 1
+                rep.ok(rule, "%s parses RON with %s (rejects trailing characters)" % (p.rsplit("::", 2)[-2] + "::" + p.rsplit("::", 1)[-1], c), nontrivial_key=p + str(bi))
+            elif ("ron::de::Deserializer" in full or "ron::Deserializer" in full) and ("Deserialize" in full and c.endswith("::deserialize")):
+                n += 1
+                ends = [b2 for b2, t2 in f.calls() if (mir.callee(t2) or "").endswith("Deserializer::<'de>::end") or (mir.callee(t2) or "").endswith("Deserializer::end")]
+                dom = mir.dominators(f)
+                oks = [b2 for b2 in mir.return_blocks(f)]
+                # every normal return that can carry Ok must be dominated by end()
+                good = bool(ends) and all(any(e in dom.get(o, ()) for e in ends) or not mir.reachable(f, bi).__contains__(o) for o in oks)
+                site = "%s bb%d line %s" % (f.where(), bi, f.blocks[bi]["line"])
+                if good: rep.ok(rule, "hand-driven ron Deserializer followed by end()", sample=site, nontrivial_key=p + str(bi))
+                else: rep.bad(rule, "trailing-input-accepted:" + p.replace("crate::", ""), "a ron Deserializer is driven by hand without a dominating end(): a valid object followed by trailing text is accepted instead of rejected", site)
+    rep.floor(rule, "RON parse sites", n, 3)
 
 def pct_in_validator(iv):
     return any((mir.callee(t) or "").endswith("::starts_with") and mir.const_arg(iv, t[2][1]) == "%" for bi, t in iv.calls())
